@@ -99,7 +99,9 @@ func vh_C10_L3_cwnd_laws() {
 		vcover("t3-twice")
 	case 0: // T3 expiry
 		a.t3RTX.start(1000)
+		rwndBefore := a.RWND()
 		vassert(vFireRtx(a, a.t3RTX), "T3 expires")
+		vassert(a.RWND() == rwndBefore, "a T3 expiry does not credit the peer window: the chunks stay counted as outstanding")
 		want := cwnd / 2
 		if want < 4*mtu {
 			want = 4 * mtu
